@@ -34,8 +34,11 @@ def setup_env() -> None:
     if p in sys.path:
         sys.path.remove(p)
     sys.path.insert(0, p)
-    for m in [m for m in sys.modules if m == "dissect" or m.startswith("dissect.")]:
-        del sys.modules[m]
+    already = sys.modules.get("dissect.cstruct")
+    if already is None or REPO.resolve() not in Path(getattr(already, "__file__", "/")).resolve().parents:
+        # only purge a copy imported from elsewhere: re-importing would duplicate the classes (isinstance / except would miss)
+        for m in [m for m in sys.modules if m == "dissect" or m.startswith("dissect.")]:
+            del sys.modules[m]
     import dissect.cstruct  # noqa: F401
 
     f = Path(dissect.cstruct.__file__).resolve()
